@@ -3,6 +3,7 @@ module verif
 go 1.23.0
 
 require (
+	github.com/btcsuite/btcd/btcec/v2 v2.3.4
 	github.com/high-moctane/mocrelay v0.0.0
 	github.com/mattn/go-sqlite3 v1.14.27
 	github.com/prometheus/client_golang v1.22.0
@@ -10,7 +11,6 @@ require (
 
 require (
 	github.com/beorn7/perks v1.0.1 // indirect
-	github.com/btcsuite/btcd/btcec/v2 v2.3.4 // indirect
 	github.com/btcsuite/btcd/chaincfg/chainhash v1.0.1 // indirect
 	github.com/cespare/xxhash/v2 v2.3.0 // indirect
 	github.com/coder/websocket v1.8.13 // indirect
